@@ -1,6 +1,8 @@
 #!/usr/bin/env python3
-"""rerun_missing.py <worktree> : re-run (once, in isolation) the baseline-stable tests that did not pass in OUT/junit.xml;
-prints those that still fail."""
+"""rerun_missing.py <worktree> : differential re-run of the baseline-stable tests that did not pass in OUT/junit.xml
+(suite run with the change applied).  Each is re-run in isolation on the CLEAN tree and on the PATCHED tree (up to 3
+tries each, same invocation); a test counts against the change only if it passes on the clean tree and never passes
+on the patched tree.  Leaves the worktree patched."""
 import json, subprocess, sys, xml.etree.ElementTree as ET
 d = sys.argv[1]
 base = json.load(open('/root/.vp/BASELINE.json'))
@@ -10,15 +12,41 @@ for tc in ET.parse(d + '/OUT/junit.xml').getroot().iter('testcase'):
     name = f"{tc.get('classname')}::{tc.get('name')}"
     res[name] = not any(ch.tag in ('failure', 'error') for ch in tc)
 missing = sorted(s for s in stable if not res.get(s, False))
-still = []
-for m in missing:
+
+
+def nid(m):
     cls, test = m.split('::')
     mod, klass = cls.rsplit('.', 1)
-    nid = f"{mod.replace('.', '/')}.py::{klass}::{test}"
-    p = subprocess.run(['/venv/bin/python', '-m', 'pytest', '-q', '-p', 'no:cacheprovider', '--timeout=900', nid], cwd=d, capture_output=True, text=True)
-    ok = p.returncode == 0
-    print(('PASS ' if ok else 'FAIL ') + nid, flush=True)
-    if not ok:
-        still.append(m)
-print('still failing after isolated re-run:', len(still), still)
-open(d + '/OUT/confirm.txt', 'a').write(f'isolated re-run of {len(missing)} non-passing baseline tests: still failing {len(still)} {still}\n')
+    return f"{mod.replace('.', '/')}.py::{klass}::{test}"
+
+
+def run(m, tries=3):
+    for i in range(tries):
+        p = subprocess.run(['/venv/bin/python', '-m', 'pytest', '-q', '-p', 'no:cacheprovider', '--timeout=900', nid(m)],
+                           cwd=d, capture_output=True, text=True)
+        if p.returncode == 0:
+            return True, i + 1
+    return False, tries
+
+
+def sh(*a):
+    subprocess.run(a, cwd=d, check=True)
+
+
+patched = {m: run(m) for m in missing}
+need_clean = [m for m in missing if not patched[m][0]]
+clean = {}
+if need_clean:
+    sh('git', 'checkout', '-q', '--', 'pyworkers')
+    try:
+        clean = {m: run(m) for m in need_clean}
+    finally:
+        sh('git', 'apply', 'OUT/patch.diff')
+broken = [m for m in need_clean if clean[m][0]]
+lines = [f'differential re-run of {len(missing)} baseline tests that did not pass in the suite run with the change:']
+for m in missing:
+    lines.append(f'  {m}: patched {"pass" if patched[m][0] else "FAIL"} (tries {patched[m][1]})' +
+                 (f'; clean {"pass" if clean[m][0] else "FAIL"} (tries {clean[m][1]})' if m in clean else ''))
+lines.append(f'tests that pass on the clean tree and never on the patched tree: {len(broken)} {broken}')
+print('\n'.join(lines))
+open(d + '/OUT/confirm.txt', 'a').write('\n'.join(lines) + '\n')
